@@ -499,12 +499,26 @@ func (o *c10Obs) feedModel(f *c10Frame) {
 		o.mCuts++
 		o.mStart = f.PtsNs
 	}
-	o.mPrev = f.PtsNs
+	// The length reached so far is measured on VIDEO frames only: ipchub holds audio back in its AAC cache, so an audio
+	// frame that arrived just before a key frame (audio starting late, right after a video gap) has not advanced the
+	// open segment yet. Counting it made this "lower bound" exceed what the statement's cut rule guarantees.
+	if !f.Audio {
+		o.mPrev = f.PtsNs
+	}
 }
 
 // afterFrame is called when ipchub has consumed source frame number o.fed-1.
 func (o *c10Obs) afterFrame() {
 	o.feedModel(&o.frames[o.fed-1])
+	if os.Getenv("VERIF_C10_DEBUG") != "" {
+		f := &o.frames[o.fed-1]
+		b, err := o.pl.M3u8("")
+		st := "ERR"
+		if err == nil {
+			st = strings.ReplaceAll(string(b[strings.Index(string(b), "MEDIA-SEQUENCE"):]), "\n", " ")
+		}
+		fmt.Fprintf(os.Stderr, "DBG fed=%d audio=%v key=%v pts_ms=%d cuts=%d | %s\n", o.fed, f.Audio, f.Key, f.PtsNs/1e6, o.mCuts, st)
+	}
 	o.poll()
 }
 
@@ -1326,6 +1340,9 @@ func (l *c10Lister) add(cs c10Case) {
 		return
 	}
 	cs.Index = i
+	if only := os.Getenv("VERIF_C10_ONLY"); only != "" && only != fmt.Sprint(i) { // debugging aid: run one case of the list
+		return
+	}
 	if cs.PS < 0 || cs.PS > 1 {
 		cs.PS = 0
 	}
